@@ -18,6 +18,7 @@ RULE = ("random expression programs (3-8 operator applications) over a pool of m
         "program whose final reference polynomial has >= 2 terms; distinct = digest of the initial pool and the "
         "operation list"
         ' Also: dense 7-8 variable operands (products with thousands of term pairs), denormal coefficients whose quotient/product underflows to zero, exact-rational division, typed coefficients, self-aliased operands, raw dict operands, a label pool with equal-hash labels (-1, -2), labels re-created at run time (equal, not identical) and bool labels.')
+RULE += " Rounds 9-10: second look: after a checked non-in-place application the left operand loses a term in place (removal-only edit) and the same application is repeated."
 TIERS = {"quick": {"shards": 8, "cases": 4000}, "thorough": {"shards": 16, "cases": 40000}}
 FLOOR_BASE = {"quick": 400, "thorough": 15000}    # case counts the floors below were calibrated for; the launcher scales them
 OPS = ["add", "radd", "iadd", "sub", "rsub", "isub", "mul", "rmul", "imul", "pow", "ipow", "truediv", "itruediv", "neg", "pos"]
